@@ -1,5 +1,6 @@
 """C10: concurrent updates of one tile never lose a contribution (serial-chain oracle over a recorded history)."""
 import collections
+import json
 import os
 import random
 import time
@@ -59,6 +60,10 @@ def cases(tier, seed):
         fmt, mode = combos[(i * 7) % len(combos)]
         out.append(dict(t="hist", fmt=fmt, mode=mode, N=3, M=2, layout="disjoint", pos=[0, 0, 0], maxdelay=0.005, seed=R.randrange(1 << 30), prior="none", mixfmt=False,
                         longhold=False, pause_after_release=False, linedelay=False, realhold=True))
+    for i in range(3 if tier == "quick" else 30):
+        fmt, mode = combos[(i * 11) % len(combos)]
+        out.append(dict(t="hist", fmt=fmt, mode=mode, N=3, M=R.choice([2, 3]), layout="disjoint", pos=[0, 0, 0], maxdelay=0.02, seed=R.randrange(1 << 30), prior="none", mixfmt=False,
+                        longhold=False, pause_after_release=False, linedelay=False, fresh_interpreters=True))
     for i in range(10 if tier == "quick" else 200):
         out.append(dict(t="stage", kind=["mtan", "mwcs"][i % 2], n=R.choice([3, 4, 6]), par=R.choice([2, 3, 4]), size=R.choice([200, 256, 400]),
                         profile=R.choice(["natural", "slow_workers", "jitter", "one_late", "one_late"]), seed=R.randrange(1 << 30)))
@@ -313,7 +318,22 @@ def case_hist(spec, workdir):
         pass
     go = os.path.join(workdir, "go")
     pids = []
+    procs = []
     for i in range(spec["N"]):
+        if spec.get("fresh_interpreters"):
+            # updaters that are NOT forked from one parent: separately started interpreters (other jobs, other nodes, the spawn
+            # start method) - nothing they compute per process (hash salts, caches) is shared
+            import subprocess
+            import sys
+
+            from vlib.core import repo_root
+
+            code = ("import sys, json; sys.path[:0] = [%r, %r]; from vlib import evlog; from checks import c10; evlog.open_log_append(%r); "
+                    "c10._updater(json.loads(%r), %r, %d, %r)") % (repo_root(), os.path.dirname(os.path.dirname(os.path.abspath(__file__))), log, json.dumps(spec), base, i, go)
+            env = {k: v for k, v in os.environ.items() if k != "PYTHONHASHSEED"}
+            pr = subprocess.Popen([sys.executable, "-c", code], env=env)
+            procs.append(pr)
+            continue
         pid = os.fork()
         if pid == 0:
             code = 0
@@ -324,6 +344,8 @@ def case_hist(spec, workdir):
                 code = 1
             os._exit(code)
         pids.append(pid)
+    if procs:
+        time.sleep(1.5)  # let the interpreters import numpy / astropy / toasty before the common start signal
     open(go, "w").close()
     t0 = time.time()
     alive = set(pids)
@@ -333,6 +355,13 @@ def case_hist(spec, workdir):
             if r:
                 alive.discard(p)
         time.sleep(0.01)
+    for pr in procs:
+        try:
+            pr.wait(timeout=max(1, 150 - (time.time() - t0)))
+        except Exception:
+            pr.kill()
+            evlog.close_log()
+            return dict(status="inconclusive", detail="a separately started updater did not finish within the watchdog")
     if alive:
         import signal
 
